@@ -72,7 +72,7 @@ CHECKS = {
         note="Trusts kernel+VM, the transcription of Tokenize incl. explicit bounds checks (tied by the tokenize family: kind byte exhaustive 0..255, both parities, invalid UTF-8), harness panic recovery. No axioms.",
         technique="Coq proof (structural recursion with explicit panic outcomes) + differential correspondence + direct totality/prefix oracle"),
     "C05": dict(
-        text="Theorems for every title function, budget, recipe and raw-word stream: a returned wordlist password is the interleaving (assemble) of Length chosen atoms — word idx_i or, exactly at the positions the scheme selected, its title-cased form — with Length-1 separator values each in the range of its separator function, empty ones giving no token; the five schemes' position patterns; Atoms()/Separators() recover the atoms/separators in order; no leading separator.",
+        text="Theorems for every title function, budget, recipe and raw-word stream: a returned wordlist password is the interleaving (assemble) of Length chosen atoms — word idx_i or, exactly at the positions the scheme selected, its title-cased form — with Length-1 separator values each in the range of its separator function, empty ones giving no token; the five schemes' position patterns; Atoms()/Separators() recover the atoms/separators in order; in observable form, for lists without an empty word: Atoms() is exactly the Length drawn words title-cased exactly at the selected positions, Separators() exactly Length-1 copies of a non-empty constant separator (none for the empty one), first and last token atoms.",
         ref="§6 C05, §8 F7",
         note="Trusts kernel+VM, the hand model of the token assembly loop (tied by the wlgen correspondence family, with the list order and strings.Title graph read from the implementation). Premise for the exactly-Length-atoms corollary: no kept word is empty (known finding F7 is reported otherwise). No axioms.",
         technique="Coq proof (support of the gen term by induction over the assembly loop) + differential correspondence + structural oracle"),
